@@ -1010,7 +1010,7 @@ func init() {
 			"typed getters are compared on leaves of the matching class only; Child of a nil entry is not compared",
 		})
 	registerPathCheck("C15",
-		"the same explicit-state search as C12 extended with re-attachment of children (Child; Remove; SetChild elsewhere); in every state whose nodes are each a dict or a list: Path(\".\"), Parent() identity and FlattenedKeys() of every reachable node equal the model's structure, CompareConfigs(c,c) reports no change; plus CompareConfigs on all pairs of a fixed set of short histories; non-trivial = tree with at least one leaf / diff with more than one key",
+		"the same explicit-state search as C12 extended with re-attachment of children (Child; then Remove, an overwrite by a setter, or a Merge that replaces or drops the child; then SetChild elsewhere); in every state whose nodes are each a dict or a list: Path(\".\"), Parent() identity and FlattenedKeys() of every reachable node equal the model's structure, CompareConfigs(c,c) reports no change; plus CompareConfigs on all pairs of a fixed set of short histories; non-trivial = tree with at least one leaf / diff with more than one key",
 		[]string{
 			"states in which a node has (or had) both a dict and a list part are skipped (outside the property's quantifier) and counted as undefined",
 			"configs without variable references",
